@@ -67,7 +67,7 @@ class MatchPlain(Contract):
 
 class MatchReal(Contract):
     """_Match.match with REALPATH (prologue): TypeError exactly on mixed types; a path that does not exist never matches."""
-    module, qual, props = '_wcmatch', '_Match.match', ('C04', 'C18', 'C10')
+    module, qual, props = '_wcmatch', '_Match.match', ('C04', 'C18', 'C10', 'C06', 'C19')
     assumptions = ('os.path.lexists / os.lstat tell the truth about the file system; SUPPORT_DIR_FD is a platform constant',)
     forking = ('os.lstat',)
     allowed_raises = ('TypeError',)
@@ -76,7 +76,7 @@ class MatchReal(Contract):
         self.fn_bytes, self.root_bytes, self.pat_bytes = z3.Bool('filename_is_bytes'), z3.Bool('root_dir_is_bytes'), z3.Bool('pattern_is_bytes')
         self.root_none = z3.Bool('root_dir_is_None')
         self.n = z3.Int('n_include')
-        fields = dict(filename=ObjV(z3.Const('filename', Obj)), real=Bool(True), ptype=Int(z3.Int('ptype')),
+        fields = dict(filename=ObjV(z3.Const('filename', Obj)), real=Bool(True), ptype=Int(z3.Int('ptype')), symlinks=ObjV(z3.Const('self_symlinks', Obj)),
                       include=V('list', None, length=self.n, elem=lambda k: ObjV(INC(k))))
         params = dict(self=selfobj(), root_dir=V('opt', None, isnone=self.root_none, inner=ObjV(z3.Const('root_dir', Obj))),
                       dir_fd=V('opt', None, isnone=z3.Bool('dir_fd_is_None'), inner=ObjV(z3.Const('dir_fd', Obj))))
@@ -118,6 +118,9 @@ class MatchReal(Contract):
 
         def h_real(eng, node, st, args):
             st.ghost['$real_called'] = True
+            # the symlink cache lives for ONE call: a fresh empty dict (a cache kept on the class / object / module makes answers depend on history
+            # and on which directory the same relative path was asked about before)
+            eng.oblige('_Match.match.REALPATH_symlink_cache_is_a_fresh_dict_per_call', st, z3.BoolVal(bool(args) and args[0].kind == 'dict' and not args[0].a.get('items')), node)
             eng.oblige('_Match.match.REALPATH_matching_only_for_paths_that_exist', st, pyvc.truthy(st.env['exists']), node)
             return U('MATCH_REAL', *args, ret='bool')
         hooks = dict(FL.PLATFORM_HOOKS)
@@ -143,7 +146,8 @@ class MatchReal(Contract):
         return [('_Match.match.REALPATH_TypeError_only_on_mixed_types', ('C18',),
                  lambda c: z3.Not(z3.And(z3.Or(me.root_none, me.root_bytes == me.fn_bytes), z3.Implies(me.n > 0, me.pat_bytes == me.fn_bytes))))]
 
-    obligation_props = {'_Match.match.REALPATH_matching_only': ('C04',), '_wcmatch._Match.match.raises_only_documented': ('C18', 'C10')}
+    obligation_props = {'_Match.match.REALPATH_matching_only': ('C04',), '_wcmatch._Match.match.raises_only_documented': ('C18', 'C10'),
+                        '_Match.match.REALPATH_symlink_cache': ('C06', 'C19', 'C04')}
 
 
 class MatchRealBody(Contract):
